@@ -251,6 +251,12 @@ pub fn exec(mid: usize, op: &Op, lock: &BigLock) {
                 if id == 0 || w.objs.get(&id).map(|o| o.sem == SEM_IMMORTAL).unwrap_or(true) {
                     return None;
                 }
+                // Reference objects are not made finalizable: an unreachable reference object is
+                // dropped from the reference tables before finalization resurrects it, and what its
+                // (weak) referent field then means is not covered by C06's statement.
+                if w.objs.get(&id).map(|o| o.kind != obj::KIND_NORMAL).unwrap_or(true) {
+                    return None;
+                }
                 *w.fin_registered.entry(id).or_insert(0) += 1;
                 w.count("finalizers_added");
                 Some(w.root_raw(mid, *root))
